@@ -46,7 +46,15 @@ func DeriveECDHES(alg string, apuData, apvData []byte, priv *ecdsa.PrivateKey, p
 	}
 
 	z, _ := priv.PublicKey.Curve.ScalarMult(pub.X, pub.Y, priv.D.Bytes())
-	reader := NewConcatKDF(crypto.SHA256, z.Bytes(), algID, ptyUInfo, ptyVInfo, supPubInfo, []byte{})
+
+	// The shared secret Z is the field element as a fixed-width octet string, the
+	// leading zero bytes are significant, see RFC 7518 section 4.6.2 (NIST SP 800-56A).
+	zBytes := z.Bytes()
+	if octSize := (priv.PublicKey.Curve.Params().BitSize + 7) >> 3; len(zBytes) < octSize {
+		zBytes = append(make([]byte, octSize-len(zBytes)), zBytes...)
+	}
+
+	reader := NewConcatKDF(crypto.SHA256, zBytes, algID, ptyUInfo, ptyVInfo, supPubInfo, []byte{})
 
 	key := make([]byte, size)
 
